@@ -256,16 +256,22 @@ func c18Registrations(c *Ctx) {
 func makeFuncClosure(fn *ssa.Function) (*ssa.Function, *ssa.Call) {
 	var out *ssa.Function
 	var call *ssa.Call
-	EachInstr(fn, func(in ssa.Instruction) {
-		cl, ok := in.(*ssa.Call)
-		if !ok || !MatchCC(&cl.Call, Spec{"reflect", "", "MakeFunc"}) {
-			return
+	// in fn, or in a method of the package it calls to build the function (wrapFactory(...))
+	for _, g := range FindFuncs(fn, 1, func(*ssa.Function) bool { return true }) {
+		if g != fn && g.Parent() != nil {
+			continue // closures are looked at through their MakeClosure
 		}
-		if mc, ok := cl.Call.Args[1].(*ssa.MakeClosure); ok {
-			out, _ = mc.Fn.(*ssa.Function)
-			call = cl
-		}
-	})
+		EachInstr(g, func(in ssa.Instruction) {
+			cl, ok := in.(*ssa.Call)
+			if !ok || !MatchCC(&cl.Call, Spec{"reflect", "", "MakeFunc"}) {
+				return
+			}
+			if mc, ok := cl.Call.Args[1].(*ssa.MakeClosure); ok && (out == nil || g == fn) {
+				out, _ = mc.Fn.(*ssa.Function)
+				call = cl
+			}
+		})
+	}
 	return out, call
 }
 
@@ -483,7 +489,13 @@ func c18Constructors(c *Ctx) {
 		}
 		// some reflect.Value.Call result indexed [1] flows into the error result through a type assertion to error
 		okErr, okPlugin := false, false
-		EachInstr(np, func(in ssa.Instruction) {
+		// NewPlugin itself or the helper of the package that splits the call's results (pluginAndMaybeErr(out))
+		eachNP := func(f func(ssa.Instruction)) {
+			for _, g := range FindFuncs(np, 2, func(*ssa.Function) bool { return true }) {
+				EachInstr(g, f)
+			}
+		}
+		eachNP(func(in ssa.Instruction) {
 			ta, ok := in.(*ssa.TypeAssert)
 			if !ok || !types.Identical(ta.AssertedType, errType) {
 				return
@@ -501,7 +513,7 @@ func c18Constructors(c *Ctx) {
 				}
 			}
 		})
-		EachInstr(np, func(in ssa.Instruction) {
+		eachNP(func(in ssa.Instruction) {
 			if cl, ok := in.(*ssa.Call); ok && MatchCC(&cl.Call, Spec{"reflect", "Value", "Interface"}) {
 				for _, r := range Roots(cl.Call.Args[0], false) {
 					if u, ok := r.(*ssa.UnOp); ok {
